@@ -105,6 +105,38 @@ Fixpoint run_chain_gen (keep : row -> bool) (c : cfg) (cm : db) (mem : avgcache)
   | _ :: _, [] => Some (0, 5, 0, None)
   end.
 Definition run_chain := run_chain_gen (fun _ => true).
+
+(* one pass giving both the first mismatch on the full dump and the first mismatch on the projection;
+   [full] = the full-dump mismatch found so far *)
+Fixpoint run_chain2 (keep : row -> bool) (c : cfg) (cm : db) (mem : avgcache) (bs : list block) (ex : list obs)
+         (full : option mismatch) : option mismatch * option mismatch :=
+  match bs, ex with
+  | [], _ => (full, None)
+  | b :: bs', o :: ex' =>
+    let both m := (match full with Some f => Some f | None => Some m end, Some m) in
+    match step_block c cm mem b with
+    | Done (s', mem') =>
+      if negb (o_ok o) then both (b_height b, 2, 0, None)
+      else match o_rows o with
+           | None => run_chain2 keep c s' mem' bs' ex' full
+           | Some rs =>
+             let d := sort_rows (dump_db s') in
+             match rows_first_diff d rs with
+             | None => run_chain2 keep c s' mem' bs' ex' full
+             | Some df =>
+               let full' := match full with Some f => Some f | None => Some (b_height b, 3, 0, Some df) end in
+               match rows_first_diff (filter keep d) (filter keep rs) with
+               | None => run_chain2 keep c s' mem' bs' ex' full'
+               | Some dp => (full', Some (b_height b, 3, 0, Some dp))
+               end
+             end
+           end
+    | Stuck code => if o_ok o then both (b_height b, 1, code, None) else (full, None)
+    | Crashed code => if o_ok o then both (b_height b, 1, 1000 + code, None) else (full, None)
+    | OracleMiss w => both (b_height b, 4, w, None)
+    end
+  | _ :: _, [] => (match full with Some f => Some f | None => Some (0, 5, 0, None) end, Some (0, 5, 0, None))
+  end.
 Definition keep_tags (tags : list Z) (r : row) : bool :=
   match r with t :: _ => existsb (Z.eqb t) tags | [] => false end.
 
